@@ -5,6 +5,9 @@ A case is a program over histogram registers:
     ["new", r, cap]  ["upd", r, value, count]  ["add", a, b]  ["merge", a, b]
     ["bulk", r, [values...], "f8"|"i8"]  ["dl", r, s]   (s := load(**r.dump()))
     ["ld2", r, s, t]   (d := r.dump(); s := load(**d); t := load(**d) — one dump loaded twice)
+    ["updl", r, value, count]   (update of the object that was the LEFT operand of the last `+`/merge on r: on the
+                                 code as it is that object IS the sum, so this is `upd`; if `+` returns a new object
+                                 the left operand lives on as a second histogram and is judged as one)
 
 run in mode "f" (the code as shipped: numpy.float64 caster, values are floats) or in mode "q"
 (exact arithmetic: the module's `_caster` patched to the identity, values are Fractions, the dump
@@ -152,7 +155,8 @@ class Ref:
             if gaps.count(m) > 1:
                 self.tie = True
             (v1, f1), (v2, f2) = b[k], b[k + 1]
-            b[k : k + 2] = [((v1 * f1 + v2 * f2) / (f1 + f2), f1 + f2)]
+            c0 = (v1 * f1 + v2 * f2) / (f1 + f2)
+            b[k : k + 2] = [(min(max(c0, v1), v2), f1 + f2)]  # kept within the pair (the identity in exact arithmetic)
         self.min = v if self.min is None or v < self.min else self.min
         self.max = v if self.max is None or self.max < v else self.max
 
@@ -250,12 +254,14 @@ def watch(h):
     if not isinstance(h.bins, WatchedBins):
         w = WatchedBins(h.bins)
         h.bins = w
-    return h.bins.ins
+    return h.bins.ins, h.bins
 
 
 def inserted_since(h, n0):
-    """True / False, or None when the watched list was replaced (not observable)."""
-    if not isinstance(h.bins, WatchedBins):
+    """True / False, or None when the watched list was replaced (not observable) — also by a copy of itself: copying
+    a list subclass goes through `append`, which is not an insertion by `update`."""
+    n0, lst = n0
+    if h.bins is not lst:
         return None
     return h.bins.ins > n0
 
@@ -302,10 +308,10 @@ def bulk_parts(mode, values, kind, cap, factor):
         mids = [(edges[i] + edges[i + 1]) / 2 for i in range(len(edges) - 1)]
         ins = [(m, int(c)) for m, c in zip(mids, cnts) if c > 0]
         tail = ["bulkh", [vwire(mode, e) for e in edges], [vwire(mode, int(c)) for c in cnts], vwire(mode, lo), vwire(mode, hi)]
-        return arr, tail, ins, lo, hi, "above"
+        return arr, tail, ins, lo, hi, "above" + (" (one past the threshold)" if len(uniq) == cap * factor + 1 else "")
     ins = [(u, int(c)) for u, c in zip(uniq, cnts)]
     tail = ["bulkp", [[vwire(mode, u), vwire(mode, int(c))] for u, c in ins], vwire(mode, lo), vwire(mode, hi)]
-    return arr, tail, ins, lo, hi, "below"
+    return arr, tail, ins, lo, hi, "below" + (" (exactly at the threshold)" if len(uniq) == cap * factor else "")
 
 
 def snap_impl(mode, h):
@@ -393,6 +399,54 @@ def same_val(mode, v1, v2, loose=False):
     return wire.fbits(float(v1)) == wire.fbits(float(v2))
 
 
+def native_bins(h):
+    """The bins as the implementation holds them (numpy scalars are immutable: a shallow copy is a snapshot)."""
+    return [(v, f) for v, f in h.bins]
+
+
+def native_diff(a, b):
+    """First difference between two native bin lists compared at FULL precision (numpy.float128 centres are not
+    rounded to float64 first), or None."""
+    if len(a) != len(b):
+        return {"bins": [len(a), len(b)]}
+    for i, ((v1, f1), (v2, f2)) in enumerate(zip(a, b)):
+        if int(f1) != int(f2):
+            return {"at": i, "counts": [int(f1), int(f2)]}
+        if vexact(v1) != vexact(v2):
+            return {"at": i, "centres": [vshow(v1), vshow(v2)], "types": [type(v1).__name__, type(v2).__name__]}
+    return None
+
+
+def native_val_diff(a, b):
+    if a is None or b is None:
+        return None if (a is None and b is None) else [vshow(a), vshow(b)]
+    return None if vexact(a) == vexact(b) else [vshow(a), vshow(b)]
+
+
+def vshow(x):
+    """A value at full precision, as text (for failure details)."""
+    if x is None:
+        return None
+    q = vexact(x)
+    try:
+        import numpy
+
+        if isinstance(x, numpy.floating):
+            return "%s = %s/%s" % (numpy.format_float_positional(x, unique=True), q.numerator, q.denominator)
+    except Exception:
+        pass
+    return str(q)
+
+
+class Ghost:
+    """The left operand of a `+` / merge that returned a *different* object: a second live histogram.  It is either
+    left unchanged by the addition or it is the sum — judged against both ledgers, must satisfy one."""
+
+    def __init__(self, reg, obj, before, total):
+        self.reg, self.obj, self.cands = reg, obj, [before, total]
+        self.snap = None
+
+
 class Outcome:
     def __init__(self):
         self.fail = None  # (clause, detail, step)
@@ -405,6 +459,8 @@ class Outcome:
         self.ledgers = {}
         self.refs = {}
         self.stopped = None
+        self.ghosts = {}  # register -> Ghost (left operand object of the last `+` that returned a new object)
+        self.skip_model = False  # an operation on a ghost has no counterpart in the model: oracle only
 
 
 def run_impl(case, keep=False):
@@ -416,10 +472,15 @@ def run_impl(case, keep=False):
     out = Outcome()
     ctx_hits = out.hits
     H, L, R = out.hists, out.ledgers, out.refs
+    S = {}  # register -> fingerprint of its state after the last operation that addressed it
     with Patched(mode) as D:
         for step, op in enumerate(prog):
             k = op[0]
+            if k == "updl" and op[1] not in out.ghosts:
+                op, k = ["upd"] + list(op[1:]), "upd"  # the left operand IS the sum (the code as it is)
+                ctx_hits.append("updl:left-operand-is-the-sum")
             touched = None
+            also = []  # further registers this operation addressed (dump/load: the dumped one and every target)
             err = None
             watched = None
             if k in ("upd", "add", "merge", "bulk") and op[1] in L and L[op[1]].over_open:
@@ -447,9 +508,21 @@ def run_impl(case, keep=False):
                     L[r].put(v, c)
                     R[r].update(v, c)
                     touched = r
+                elif k == "updl":
+                    # the left operand of the last `+` on r lives on as an object of its own: update it
+                    _, r, v, c = op
+                    g = out.ghosts[r]
+                    v = vin(mode, v)
+                    out.skip_model = True
+                    g.obj = D.update(g.obj, v, c)
+                    for Lc in g.cands:
+                        Lc.put(v, c)
+                    g.snap = None
+                    ctx_hits.append("updl:left-operand-is-a-second-object")
                 elif k in ("add", "merge"):
                     _, a, b = op
                     out.model_ops.append([k, a, b])
+                    old, l_before = H[a], L[a].copy()
                     if k == "add":
                         res = H[a] + H[b]
                     else:
@@ -458,6 +531,11 @@ def run_impl(case, keep=False):
                     L[a].absorb(L[b])
                     if k == "merge":
                         L[a].bare = True
+                    if res is old:
+                        out.ghosts.pop(a, None)
+                    else:
+                        out.ghosts[a] = Ghost(a, old, l_before, L[a].copy())
+                        ctx_hits.append("add:returned-a-new-object(left operand judged as a second histogram)")
                     rb = R[b]
                     R[a].tie = R[a].tie or rb.tie
                     for v, f in list(rb.bins):
@@ -474,7 +552,7 @@ def run_impl(case, keep=False):
                     else:
                         arr, tail, ins, lo, hi, path = bulk_parts(mode, values, kind, int(H[r]._bin_count), factor)
                         out.model_ops.append([tail[0], r] + tail[1:])
-                        out.path = path
+                        ctx_hits.append("bulk:" + path)
                         H[r].bulkload(arr)
                         for v, c in ins:
                             L[r].put(v, c)
@@ -490,10 +568,31 @@ def run_impl(case, keep=False):
                     for s in targets:
                         out.model_ops.append(["dl", r, s])
                     before = snap_impl(mode, H[r]) if H[r].bins else None
+                    nat0 = (native_bins(H[r]), H[r].min, H[r].max)  # the histogram as it is, at its own precision
                     d = H[r].dump()
+                    handed = ([(v, f) for v, f in d["bins"]], d["min"], d["max"])  # what dump() hands out
                     loaded = [D.load(d["bins"], d["min"], d["max"]) for _ in targets]  # one dump, one or two loads
                     if mode == "f":
                         L[r].f128 = True
+                    if any(type(v).__name__ in ("longdouble", "float128") for v, _ in nat0[0]):
+                        ctx_hits.append("dl:of-a-histogram-already-holding-float128-bins")
+                        if any(float(v) != v for v, _ in nat0[0]):
+                            ctx_hits.append("dl:with-a-centre-float64-cannot-represent")
+                    # dump/load preserves bins and bounds — compared at the FULL precision of what dump() hands out (a later
+                    # dump of a histogram whose bins an earlier dump() turned into numpy.float128 carries centres that are
+                    # not float64 values; float() of both sides would hide a load() that rounds them)
+                    nat = [("dump() changed the histogram it dumped", nat0, (native_bins(H[r]), H[r].min, H[r].max)),
+                           ("dump() hands out bins/bounds that are not the histogram's", nat0, handed)]
+                    nat += [("the loaded histogram differs from the dump it was loaded from", handed, (native_bins(h2), h2.min, h2.max))
+                            for h2 in loaded]
+                    for what, x, y in nat:
+                        dd = native_diff(x[0], y[0])
+                        if dd is None:
+                            bd = [native_val_diff(x[1], y[1]), native_val_diff(x[2], y[2])]
+                            dd = {"min": bd[0], "max": bd[1]} if any(bd) else None
+                        if dd is not None and out.fail is None:
+                            dd["compared"] = "at full precision"
+                            out.fail = ("dumpload: " + what, dd, step)
                     got_all = [("dumped histogram changed by dump()", snap_impl(mode, H[r]))]
                     for s, h2 in zip(targets, loaded):
                         H[s] = h2
@@ -506,11 +605,12 @@ def run_impl(case, keep=False):
                         got_all.append(("loaded histogram differs from the dumped one", snap_impl(mode, h2)))
                     # dump/load preserves bins and bounds (of the dumped histogram, and the dump does not change it)
                     for what, got in got_all:
-                        if not (same_bins(mode, before[0], got[0]) and same_val(mode, before[1], got[1]) and same_val(mode, before[2], got[2])):
+                        if out.fail is None and not (same_bins(mode, before[0], got[0]) and same_val(mode, before[1], got[1]) and same_val(mode, before[2], got[2])):
                             out.fail = ("dumpload: " + what, {"before": before, "after": got}, step)
                     for _ in targets[1:]:
                         out.outs.append("ok")  # one implementation step, two model steps
                     touched = targets[-1]
+                    also = [r] + list(targets[:-1])
                 else:
                     raise InfraError("bad op %r" % (op,))
             except InfraError:
@@ -569,6 +669,19 @@ def run_impl(case, keep=False):
                     ctx_hits.append("k01:reference-rebased-after-episode")
                 if bad is not None:
                     out.fail = (bad[0], bad[1], step)
+            if out.fail is None:
+                # the other histograms this operation addressed (the dumped one, the first of two loaded copies) ...
+                known = []
+                for t in also:
+                    bad = check_state(mode, H[t], L[t], k, known)
+                    if bad is not None and out.fail is None:
+                        out.fail = (bad[0], dict(bad[1] or {}, register=t), step)
+                out.known.extend((cl, d, step) for cl, d in known)
+            if out.fail is None:
+                # ... and every histogram it did NOT address: still the histogram its own history made it
+                bad = bystanders(mode, out, S, set([touched] + also), k, ctx_hits)
+                if bad is not None:
+                    out.fail = (bad[0], bad[1], step)
             if out.fail is not None:
                 out.stopped = step
                 break
@@ -577,6 +690,47 @@ def run_impl(case, keep=False):
                 out.snaps.append((step, touched, snap_impl(mode, H[touched]), snap_ref(mode, R[touched]),
                                   R[touched].tie, L[touched].f128))
     return out
+
+
+def fingerprint(h):
+    return (list(h.bins), h.min, h.max)
+
+
+def same_fp(h, fp):
+    def eq(a, b):
+        return (a is None and b is None) or (a is not None and b is not None and bool(a == b))
+
+    return fp is not None and bool(h.bins == fp[0]) and eq(h.min, fp[1]) and eq(h.max, fp[2])
+
+
+def bystanders(mode, out, S, addressed, k, hits):
+    """Operand reuse: after an operation, every histogram it did not address must still be what its own history made it
+    (`a + b` must leave b alone; a loaded copy must not move when its source is updated; ...), and a left operand that
+    `+` did not return must be the unchanged operand or the sum.  Only histograms whose state moved are re-judged, with
+    the property's own clauses."""
+    for r, h in out.hists.items():
+        if r in addressed or r not in S:
+            S[r] = fingerprint(h)
+            continue
+        if same_fp(h, S[r]):
+            continue
+        bad = check_state(mode, h, out.ledgers[r], "bystander", [])
+        S[r] = fingerprint(h)
+        if bad is not None:
+            return bad[0], dict(bad[1] or {}, register=r, note="this histogram changed although the operation (%s) did not address it" % k)
+        hits.append("bystander:changed-but-every-clause-holds")
+    for g in out.ghosts.values():
+        if g.snap is not None and same_fp(g.obj, g.snap):
+            continue
+        res = [check_state(mode, g.obj, Lc, "left-operand", []) for Lc in g.cands]
+        g.snap = fingerprint(g.obj)
+        hits.append("left-operand-object:judged")
+        if all(x is not None for x in res):
+            return res[1][0], {"object": "left operand of the `+`/merge on register %s; the operation returned a different object, so this one "
+                               "must be either the unchanged operand or the sum — it is neither" % g.reg,
+                               "as_unchanged_operand": res[0][0], "as_sum": res[1][0], "detail": res[1][1],
+                               "bins": [[vshow(v), int(f)] for v, f in g.obj.bins], "min": vshow(g.obj.min), "max": vshow(g.obj.max)}
+    return None
 
 
 def model_line(mode, model_ops):
@@ -603,6 +757,9 @@ def dec_snap(mode, s):
 def compare_with_model(ctx, case, out, mline_out):
     """Correspondence + infrastructure comparison for one case. Returns a disagreement or None."""
     mode = case["mode"]
+    if out.skip_model:
+        ctx.hit("model-correspondence-skipped(operation on a left operand that `+` did not return)")
+        return None
     if not mline_out.startswith("ok "):
         raise InfraError("model rejected case: %r -> %r" % (json.dumps(core._jsonable(case))[:400], mline_out))
     mouts = wire.dec_all(mline_out[3:])[0]
@@ -658,7 +815,7 @@ def valid_case(c):
             if len(op) != 3 or not isinstance(op[2], int) or not 2 <= op[2] <= 64 or not isinstance(op[1], int) or op[1] in regs:
                 return False
             regs[op[1]] = True
-        elif k == "upd":
+        elif k in ("upd", "updl"):
             if len(op) != 4 or op[1] not in regs or not isinstance(op[3], int) or op[3] < 1 or not _valid_val(c["mode"], op[2]):
                 return False
         elif k in ("add", "merge"):
@@ -705,7 +862,7 @@ def evaluate(ctx, cases):
         lines.append(model_line(c["mode"], o.model_ops))
     mouts = ctx.model.batch(lines)
     for c, o, mo in zip(cases, outs, mouts):
-        n_upd = sum(1 for op in c["prog"] if op[0] in ("upd", "bulk"))
+        n_upd = sum(1 for op in c["prog"] if op[0] in ("upd", "updl", "bulk"))
         ctx.case(c, nontrivial=n_upd >= 2)
         record(ctx, c, o)
         seen_kinds = set()
@@ -756,8 +913,6 @@ def record(ctx, c, o):
         ctx.hit("op:" + op[0])
         if op[0] == "new":
             ctx.hit("cap:%s" % ("2-4" if op[2] <= 4 else "5-16" if op[2] <= 16 else "17-50" if op[2] <= 50 else "51-64"))
-    if getattr(o, "path", None):
-        ctx.hit("bulk:" + o.path)
     if getattr(o, "f128_divergence", False):
         ctx.hit("after-dump float128 bins beyond tolerance of float64 reference (not compared)")
     if any(r.tie for r in o.refs.values()):
@@ -864,6 +1019,8 @@ def random_case(ctx, mode=None, size=None, want=None):
             if rng.random() < 0.3:
                 prog.append(["bulk", b, [gv() for _ in range(rng.randint(1, min(30, capb * 5) if mode == "q" else 30))], "f8"])
             prog.append(["merge" if (want == "merge" or (want == "mix" and rng.random() < 0.3)) else "add", tgt, b])
+            if rng.random() < 0.3:
+                prog.append(["updl", tgt, gv(), gen_count(rng)])
         elif want in ("bulk", "mix") and r < 0.08:
             capt = regs[tgt]
             if mode == "q":
@@ -1022,6 +1179,9 @@ def reuse_case(ctx, mode=None):
         x, y = rng.sample(regs, 2)
         if r < 0.3:
             prog.append([rng.choice(["add", "add", "merge"]), x, y])
+            # the operands are used again: the left operand object, the right operand, the sum
+            for _ in range(rng.randint(0, 3)):
+                prog.append([rng.choice(["updl", "upd", "upd"]), rng.choice([x, x, y]), gv(), gen_count(rng)])
         elif r < 0.5:
             s, t = len(regs), len(regs) + 1
             regs.extend([s, t])
@@ -1039,6 +1199,59 @@ def reuse_case(ctx, mode=None):
         else:
             prog.append(["upd", x, gv(), gen_count(rng)])
     return {"mode": mode, "prog": prog, "family": "reuse:" + fam, "snap_every": 1 if len(prog) <= 30 else 5}
+
+
+def checkpoint_case(ctx, mode=None):
+    """A running histogram that is checkpointed again and again: dump + load at (nearly) every point of its history,
+    the stream going on in the original (whose bins the first dump() turned into numpy.float128, so every later merge
+    yields centres float64 cannot represent) and/or in the restored copy, restored copies dumped again.  Small limits so
+    that almost every value merges; values either ordinary or a cluster of neighbouring doubles (merged centres then
+    differ by less than one float64 spacing: a load() that rounds makes them equal)."""
+    rng = ctx.rng
+    mode = mode or ("f" if rng.random() < 0.8 else "q")
+    cap = rng.choice([2, 2, 3, 3, 4, 6, 10])
+    style = rng.choice(["ulp", "ulp", "dense", "negative", "wide", "sparse", "integral"])
+    if mode == "q":
+        style = rng.choice(["dense", "negative", "integral"])
+    gc = lambda: gen_count(rng)
+    if style == "ulp":
+        base = rng.choice([1.0, 1.0, 0.1, 3.0, -7.5, 1e10, 1e-8, 4.0 / 3.0])
+        u = abs(base) * 2.0 ** -52
+        gv = lambda: base + rng.randint(-12, 12) * u * rng.choice([0.5, 1, 1, 2])
+        # large counts: the rounding error of `centre * count` is then several spacings of the centres themselves
+        gc = lambda: rng.choice([1, 1, 1, 2, 3, 7, 1000, 124997, 999983])
+    elif mode == "f":
+        gv = lambda: gen_value(rng, style)
+    else:
+        gv = lambda: gen_qvalue(rng, style)
+    prog = [["new", 0, cap]]
+    for _ in range(rng.randint(1, cap + 2)):
+        prog.append(["upd", 0, gv(), gc()])
+    cur, nxt = 0, 1
+    every = rng.choice([1, 1, 2, 3])
+    for i in range(rng.randint(4, 18)):
+        if i % every == 0:
+            if rng.random() < 0.15:
+                prog.append(["ld2", cur, nxt, nxt + 1])
+                nxt += 2
+            else:
+                prog.append(["dl", cur, nxt])
+                nxt += 1
+            if rng.random() < 0.35:
+                cur = nxt - 1  # restore: the stream goes on in the loaded copy
+        r = rng.random()
+        if r < 0.8:
+            prog.append(["upd", cur, gv(), gc()])
+        elif r < 0.9:
+            prog.append(["bulk", cur, [gv() for _ in range(rng.randint(1, 6))], "f8"])
+        else:
+            prog.append(["new", nxt, rng.choice([2, 3, 8])])
+            for _ in range(rng.randint(1, 4)):
+                prog.append(["upd", nxt, gv(), 1])
+            prog.append(["add", cur, nxt] if rng.random() < 0.7 else ["add", nxt, cur])
+            nxt += 1
+    prog.append(["dl", cur, nxt])
+    return {"mode": mode, "prog": prog, "family": "checkpoint:" + style, "snap_every": 1 if len(prog) <= 30 else 5}
 
 
 def zero_extreme_case(ctx, mode=None):
@@ -1131,6 +1344,38 @@ BOUNDARY = [
      + [["dl", 0, 1], ["upd", 1, w(14), 2], ["upd", 1, w(15), 1], ["upd", 1, w(3 * n * n + 100), 3], ["upd", 1, w(-7), 1], ["upd", 1, w(9000), 1]]}
     for n in (49, 50, 51, 52, 64) for m, w in (("q", int), ("f", float))
 ] + [
+    # bulk load with one fewer than / exactly / one more than `limit * 5` distinct values (unevenly spaced, with repeats):
+    # exactly at the threshold the values are still inserted one by one
+] + [
+    {"mode": "f", "family": "boundary", "prog": [["new", 0, cap], ["upd", 0, 3.5, 2],
+                                                ["bulk", 0, [float(i * i + 7 * (i % 3)) for i in range(cap * 5 + d)] + [0.0, 0.0, 4.0], kind]]}
+    for cap in (2, 3, 7) for d in (-1, 0, 1) for kind in ("f8", "i8")
+] + [
+    # a stream whose first value is its largest / a single value / a strictly descending stream: both bounds from the
+    # first value on
+    {"mode": "f", "family": "boundary", "prog": [["new", 0, 3], ["upd", 0, 9.0, 1], ["upd", 0, 2.0, 1], ["upd", 0, 5.0, 1], ["upd", 0, 7.0, 1], ["upd", 0, 3.0, 1]]},
+    {"mode": "q", "family": "boundary", "prog": [["new", 0, 2], ["upd", 0, 9, 3]]},
+    {"mode": "q", "family": "boundary", "prog": [["new", 0, 2], ["upd", 0, 9, 1], ["upd", 0, 7, 1], ["upd", 0, 4, 1], ["upd", 0, -1, 1], ["dl", 0, 1], ["upd", 1, -2, 1]]},
+    # checkpoints of a running histogram: the first dump() turns its bins into numpy.float128, later merges give centres
+    # float64 cannot represent (neighbouring doubles: centres closer than one float64 spacing), every later dump/load
+    # must hand them back unrounded
+    {"mode": "f", "family": "boundary", "prog": [["new", 0, 2], ["upd", 0, 1.0 - 2 * 2.0 ** -53, 1], ["dl", 0, 1]]
+     + [op for k, r in zip((4, 1, 3, 3, 2), range(2, 7)) for op in (["upd", 0, 1.0 - k * 2.0 ** -53, 1], ["dl", 0, r])]
+     + [["upd", 6, 0.5, 1], ["upd", 0, 0.5, 1], ["dl", 0, 7]]},
+    {"mode": "f", "family": "boundary", "prog": [["new", 0, 3], ["upd", 0, 0.1, 1], ["upd", 0, 0.2, 1], ["upd", 0, 0.7, 1], ["dl", 0, 1], ["upd", 0, 0.3, 1], ["dl", 0, 2],
+                                                ["upd", 0, 1.1, 1], ["dl", 0, 3], ["upd", 3, 0.45, 1], ["dl", 3, 4], ["upd", 4, 2.5, 1], ["ld2", 4, 5, 6]]},
+    # operands used again after `+`: the left operand object, the right operand, the sum
+    {"mode": "q", "family": "boundary", "prog": [["new", 0, 3], ["upd", 0, 10, 1], ["upd", 0, 20, 1], ["new", 1, 3], ["upd", 1, 0, 1], ["upd", 1, 40, 2], ["add", 0, 1],
+                                                ["updl", 0, 50, 1], ["upd", 1, 45, 1], ["upd", 0, -5, 1], ["add", 0, 1], ["updl", 0, 12, 1]]},
+    {"mode": "f", "family": "boundary", "prog": [["new", 0, 8], ["new", 1, 4], ["upd", 1, 1.0, 1], ["upd", 1, 2.0, 1], ["add", 0, 1], ["new", 2, 4], ["upd", 2, 3.0, 1],
+                                                ["add", 0, 2], ["upd", 1, 9.0, 1], ["updl", 0, 4.0, 1], ["upd", 2, 7.0, 1]]},
+    # rounding of the weighted centroid (finding C13-F06): neighbouring doubles with large counts, and float64 / float128
+    # centres mixed after a dump() — the stored centre must stay within the pair it replaces
+    {"mode": "f", "family": "boundary", "prog": [["new", 0, 3]] + [["upd", 0, v, c] for v, c in (
+        (1.333333333333334, 1), (1.3333333333333333, 3), (1.3333333333333333, 1), (1.3333333333333348, 1), (1.3333333333333333, 1000), (1.3333333333333366, 7))]},
+    {"mode": "f", "family": "boundary", "prog": [["new", 0, 2], ["upd", 0, 9.999999999999982e-09, 1], ["bulk", 0, [9.99999999999998e-09], "f8"], ["dl", 0, 1],
+                                                ["upd", 0, 9.99999999999998e-09, 2], ["bulk", 0, [9.999999999999992e-09], "f8"]]},
+    {"mode": "f", "family": "boundary", "prog": [["new", 0, 2], ["upd", 0, 9.999999999999997e-09, 1], ["upd", 0, 1e-08, 1], ["upd", 0, 9.999999999999999e-09, 999983]]},
     # in-place shortcut next to bin 0 and next to the last bin
     {"mode": "q", "family": "boundary", "prog": [["new", 0, 3], ["upd", 0, 0, 1], ["upd", 0, 10, 1], ["upd", 0, 20, 1], ["upd", 0, 1, 1], ["upd", 0, 19, 1], ["upd", 0, 11, 1]]},
 ]
@@ -1148,7 +1393,12 @@ def run(ctx):
         "open finding C13-K01 is judged exactly as the unchanged tree behaves: a register loaded with more bins than load()'s limit may be "
         "above the limit, with exactly the loaded number of bins, only until the first update that inserts a bin (observed on the "
         "implementation's own bin list); its bins may differ from the reference only after an exact-hit / in-place update ran above the limit",
-        "after dump() the implementation's bins are numpy.float128: later centroids are compared with the float64 machines at relative tolerance 1e-9 only",
+        "after dump() the implementation's bins are numpy.float128: later centroids are compared with the float64 machines at relative tolerance 1e-9 only; "
+        "the dump/load clause itself is judged at the full precision of what dump() hands out (exact rationals of the longdouble values)",
+        "after every operation every live histogram is judged, not only the result: a histogram the operation did not address must not move "
+        "(else it is re-judged against its own ledger), and a left operand that + / merge did not return must be the unchanged operand or the sum",
+        "order and bounds are judged exactly in floating point as well: the stored centre of a merge is kept within the pair it replaces "
+        "(C13.stored_centre_within_pair, finding C13-F06), so they do not depend on rounding; only the mean is compared 'up to rounding'",
     ])
     import time as _t
     t0 = _t.time()
@@ -1185,7 +1435,8 @@ def run(ctx):
     done = 0
     while done < n_random and ctx.time_left() > ctx.scale(12, 170):
         cases = ([random_case(ctx) for _ in range(74)] + [dl_heavy_case(ctx) for _ in range(8)] + [zero_extreme_case(ctx) for _ in range(8)]
-                 + [over_limit_load_case(ctx) for _ in range(4)] + [reuse_case(ctx) for _ in range(6)])
+                 + [over_limit_load_case(ctx) for _ in range(4)] + [reuse_case(ctx) for _ in range(6)]
+                 + [checkpoint_case(ctx) for _ in range(8)])
         evaluate(ctx, cases)
         done += len(cases)
         if ctx.violations:
@@ -1211,8 +1462,9 @@ def intensify(ctx):
     n = 0
     while ctx.time_left() > max(5, t_end - 50) and n < 3000 and not ctx.violations:
         evaluate(ctx, [random_case(ctx) for _ in range(74)] + [dl_heavy_case(ctx) for _ in range(10)] + [zero_extreme_case(ctx) for _ in range(10)]
-                 + [over_limit_load_case(ctx) for _ in range(6)])
-        n += 100
+                 + [over_limit_load_case(ctx) for _ in range(6)] + [reuse_case(ctx) for _ in range(6)]
+                 + [checkpoint_case(ctx) for _ in range(8)])
+        n += 114
 
 
 def replay(ctx, case):
